@@ -652,14 +652,14 @@ def install(spec: Spec):
 
     # ------------------------------------------------------------------ on() / expect() (C18)
     spec.define('event_key', ['p'], "'*' if p == '*' else (p.__name__ if isinstance(p, type) else str(p))")
-    spec.fn('EventBus.on', file=S, qual='EventBus.on', params={'self': 'EventBus', 'event_pattern': 'any', 'handler': 'Handler'}, returns='NoneType', trusted=True,
+    spec.defaultdict_fields = {'handlers'}
+    spec.fn('EventBus.on', file=S, qual='EventBus.on', params={'self': 'EventBus', 'event_pattern': 'any', 'handler': 'Handler'}, returns='NoneType',
             modifies=[('handlers', 'self')],
             ensures=[('appended_under_its_key', "event_key(event_pattern) in self.handlers and self.handlers[event_key(event_pattern)] == "
                                                 "(old(self.handlers)[event_key(event_pattern)] if event_key(event_pattern) in old(self.handlers) else []) + [handler]", ['C18', 'C01']),
                      ('other_keys_untouched', "forall(lambda k: implies(k != event_key(event_pattern), (k in self.handlers) == (k in old(self.handlers)) and "
                                               "implies(k in self.handlers, self.handlers[k] == old(self.handlers)[k])), 'str')", ['C18'])],
-            raises=[RaisesClause('AssertionError', label='invalid_pattern_or_handler', ensures=[('nothing_registered', 'self.handlers == old(self.handlers)', ['C18'])])],
-            notes='registration: appends the handler to handlers[key(pattern)] (key = "*", the class name, or the string); contract assumed (body uses defaultdict and name bookkeeping)')
+            raises=[RaisesClause(('AssertionError', 'TypeError'), label='invalid_pattern_or_handler', ensures=[('nothing_registered', 'self.handlers == old(self.handlers)', ['C18'])])])
     spec.methods[('EventBus', 'on')] = 'EventBus.on'
 
     spec.ghosts['expect_handler'] = parse_ty('any')    # the temporary handler registered by the expect() call in progress (task-owned)
@@ -688,7 +688,7 @@ def install(spec: Spec):
             exits_ensure=[('unsubscribed_on_every_exit', "not " + MINE('self.handlers'), ['C18'])],
             raises=[RaisesClause('TimeoutError', label='no_match_in_time', when='timeout is not None', tags=['C18'], origin='asyncio.wait_for'),
                     RaisesClause('CancelledError', label='cancelled', tags=['C18']),
-                    RaisesClause('AssertionError', label='invalid_pattern', origin='call:EventBus.on')])
+                    RaisesClause(('AssertionError', 'TypeError'), label='invalid_pattern', origin='call:EventBus.on')])
 
     inc = z3.Function('user_include', Ref, Ref, z3.BoolSort())
 
@@ -770,3 +770,15 @@ def install(spec: Spec):
                      ('task_forgotten', 'implies(old(self._is_running), self._runloop_task is None)', ['C16'])],
             raises=[RaisesClause('CancelledError', label='cancelled', tags=['C16'])])
     spec.methods[('EventBus', 'stop')] = 'EventBus.stop'
+
+    # ------------------------------------------------------------------ loop-close hook installed by _start (C16: "loop shutdown terminates the bus")
+    def original_close_model(ex, n, awaited, recv=None):
+        return mk_none()
+    spec.fn('EventBus._start.close_hook', file=S, qual='EventBus._start.<locals>.close_with_cleanup', params={}, returns='NoneType',
+            free={'registered_eventbuses': 'list[EventBus]', 'original_close': 'any'},
+            modifies=[('_is_running', '*'), ('_is_shutdown', '*'), ('task_cancel_requested', '*')],
+            callsites={'original_close': {'model': original_close_model}},
+            loops={0: {'inv': [('stopped_so_far', "forall(lambda j: implies(0 <= j and j < loop_i, not loop_seq[j]._is_running))", ['C16']),
+                               ('only_stops', "forall(lambda b: implies(not loop_old(b._is_running), not b._is_running), 'EventBus')", ['C16'])]}},
+            ensures=[('every_registered_bus_is_stopped', "forall(lambda j: implies(0 <= j and j < len(registered_eventbuses), not registered_eventbuses[j]._is_running))", ['C16'])],
+            notes='the WeakSet of buses registered on the loop is read as a list snapshot (list(registered_eventbuses) in the real code)')
